@@ -363,6 +363,10 @@ def run_frontend(frontend, table, config, workdir, form="iso", max_orders=3, rng
                     cd = cd["contexts"][0]["streams"][sid]          # {module: {test: kwargs}}
                 qc = qc_config.QcConfig(cd, default_stream_key=sid)
                 kw = {"inp": fl(table["data"][sid])}
+                if len(table["t"]) % 2:
+                    # the same series as a masked array (missing values masked, finite junk underneath)
+                    raw = fl(table["data"][sid])
+                    kw["inp"] = np.ma.MaskedArray(np.where(np.isnan(raw), 4321.0, raw), mask=np.isnan(raw))
 
                 if has_time(table):
                     kw["tinp"] = times(table)
@@ -375,10 +379,10 @@ def run_frontend(frontend, table, config, workdir, form="iso", max_orders=3, rng
                 res = qc.run(**kw)
             accD = [{"stream": sid, "fn": fn_of(mod, t), "flags": absflags(v)}
                     for mod, tests in res.items() for t, v in tests.items()]
-            ev.append({"ev": "collect", "order": [], "direct": True, "first": True, "exc": "", "accL": [], "accD": accD})
+            ev.append({"ev": "collect", "order": [], "direct": True, "first": True, "exc": "", "accL": [], "accD": accD, "dkeys": []})
         except Exception as e:  # noqa: BLE001
             ev.append({"ev": "collect", "order": [], "direct": True, "first": True, "exc": type(e).__name__,
-                       "msg": str(e)[:120], "accL": [], "accD": []})
+                       "msg": str(e)[:120], "accL": [], "accD": [], "dkeys": []})
         return ev
     results, exc = [], ""
     try:
@@ -453,7 +457,7 @@ def run_frontend(frontend, table, config, workdir, form="iso", max_orders=3, rng
                 out.append(r)
         return out
     for k_od, od in enumerate(orders):
-        c = {"ev": "collect", "order": od, "direct": False, "first": first, "exc": "", "accL": [], "accD": []}
+        c = {"ev": "collect", "order": od, "direct": False, "first": first, "exc": "", "accL": [], "accD": [], "dkeys": []}
         first = False
         merge = k_od % 2 == 1
         try:
@@ -463,6 +467,7 @@ def run_frontend(frontend, table, config, workdir, form="iso", max_orders=3, rng
                                   "data": absarr(cr.data), "t": absarr(cr.tinp), "z": absarr(cr.zinp),
                                   "lat": absarr(cr.lat), "lon": absarr(cr.lon)})
             dct = collect_results(feed(od, merge), how=("dict" if k_od % 3 else dict))
+            c["dkeys"] = sorted(str(k) for k in dct)      # the streams the mapping names
             for sid, mods in dct.items():
                 for mod, tests in mods.items():
                     for t, v in tests.items():
@@ -470,6 +475,6 @@ def run_frontend(frontend, table, config, workdir, form="iso", max_orders=3, rng
         except Exception as e:  # noqa: BLE001
             c["exc"] = type(e).__name__
             c["msg"] = str(e)[:120]
-            c["accL"], c["accD"] = [], []
+            c["accL"], c["accD"], c["dkeys"] = [], [], []
         ev.append(c)
     return ev
